@@ -418,7 +418,14 @@ type teletextReader struct {
 }
 
 func (r *teletextReader) Read(p []byte) (n int, err error) {
-	if n, err = io.ReadFull(r.r, p); err == io.ErrUnexpectedEOF {
+	for n < len(p) && err == nil {
+		var nn int
+		nn, err = r.r.Read(p[n:])
+		n += nn
+	}
+	// Deliver the last bytes first: the end of the stream is reported by the next read. Any other error, including
+	// an io.ErrUnexpectedEOF returned by the underlying reader itself, is passed on.
+	if n > 0 && err == io.EOF {
 		err = nil
 	}
 	return
